@@ -15,7 +15,16 @@ Kinds of cases
              deliver exactly ITS items (as a fresh unframe would), cut short a prefix of ITS items, never anything
              of another subscription.  The chunks and per-chunk outputs of one completed subscription go through
              the Coq model like a plain case.
+  scale      SCALE: one framed stream with a line / frame of 64 KiB up to several hundred KiB (prefix 2: 32768 ..
+             65535 bytes, the upper half of what the prefix encodes) whose content varies by position, as a terminated
+             line / complete frame between short items or as the trailing unterminated line / incomplete trailing
+             frame, delivered in many separator-free chunks of UNEQUAL sizes (large then small then tiny, random sizes,
+             thousands of tiny chunks, growing, uniform with a short last chunk).  The case is a compact descriptor
+             (content seed, item lengths, chunk sizes); content and chunks are rebuilt from it, the observation holds
+             length + digest of every delivered item.  Model-free oracle only (CSkip in Coq: a 40000 byte frame takes
+             the Coq VM 20 s).  Prefix 1 with payloads of 128 .. 255 bytes is small: plain lp cases, with the model.
 """
+import hashlib
 import itertools
 import random
 from harness import core
@@ -32,12 +41,22 @@ RULE = ('cases: (items, tail/partial, chunking) with chunk cuts anywhere incl. e
         'order x fate of the first subscription at every k of a fixed chunking and after the first chunk of every '
         '1-cut chunking, every pair of 1-cut chunkings for two alternating subscriptions. non-trivial = at '
         'least 2 items and at least one cut strictly inside an item or prefix, or a re-subscription case whose '
-        'later subscription runs to completion on >= 1 item in >= 2 chunks; distinct = distinct case JSON')
+        'later subscription runs to completion on >= 1 item in >= 2 chunks, or a scale case with a line / frame of '
+        '>= 32 KiB in >= 3 chunks; distinct = distinct case JSON. SCALE family (model-free oracle only, compact '
+        'descriptor = content seed + item lengths + chunk sizes, all drawn from the case PRNG): a line / frame of '
+        '64 KiB .. 400 KB (thorough: 600 KB; prefix 2: 32768..65535 bytes) with position-dependent content, '
+        'terminated between short items or as the trailing unterminated line / incomplete trailing frame, prefix '
+        '2/4/8 and both byte orders, cut into separator-free chunks of unequal sizes: large-small-tiny cycles, '
+        'random sizes incl. empty, thousands of tiny chunks, growing 1..100000, uniform with a short last chunk; '
+        'plus prefix 1 with payloads of 128..255 bytes as plain cases with model comparison')
 TRUSTED = ['modelled not verified: Python str.split/join, int.to_bytes/from_bytes, io.BytesIO, RxPY Subject '
            'synchronous delivery',
            'not modelled: that every subscription of one unframe() operator / piped observable has a carry-over '
            'buffer of its own (the Coq model is a function of ONE chunk list); tested by the re-subscription '
-           'cases (model-free oracle per subscription), not proved']
+           'cases (model-free oracle per subscription), not proved',
+           'scale cases (a line / frame of 32 KiB and more) are judged by the model-free oracle alone (digests of the '
+           'delivered items against the items rebuilt from the case descriptor; SHA-1 collisions trusted away); the '
+           'Coq model is not evaluated on them']
 ASSUMPTIONS = ['items contain no newline (line) / are shorter than 256^p bytes (length prefix)']
 SHARD = 400
 COQ_TARGETS = ['theories/Framing/C15Corr.vo']
@@ -288,6 +307,232 @@ def resub_schedule(case):
     return out
 
 
+# ---- scale: very long lines / frames in many separator-free chunks of unequal sizes ------------------------
+# case = {'kind': 'scale', 'framing': 'line'|'lp', 'p', 'order', 'seed': content seed, 'items': [length of every item],
+#         'rest': line: length of the trailing unterminated line (0 = none); lp: None or [declared payload length,
+#         number of bytes of that frame (prefix + payload) that are in the stream, fewer than the whole frame],
+#         'sizes': [chunk sizes, consecutive; what is left over, if anything, is one more chunk],
+#         'mode', 'where': how the sizes / the position of the big item were drawn (for describe() only)}
+SCALE_MODES = ('bst', 'random', 'tiny', 'growing', 'uniform')
+_TEXT = {10: 0x2028, 65: 0x1F600, 66: 0xE9, 67: 0x10FFFF, 68: 0x100}      # no newline; some wide characters
+
+
+def scale_bytes(seed, k, n):
+    """content of item k: n bytes that depend on the position (any loss, duplication or reordering shows)"""
+    return random.Random('%d/%d' % (seed, k)).randbytes(n)
+
+
+def scale_text(seed, k, n):
+    """n characters without newline: all of latin-1 (incl. \\r, \\x00, \\x0b, \\x0c, \\x1c-\\x1e, \\x85) and some wide ones"""
+    return scale_bytes(seed, k, n).decode('latin-1').translate(_TEXT)
+
+
+def scale_stream(case):
+    """(items, rest, chunks) of a scale case as real str / bytes, from the descriptor alone"""
+    seed = case['seed']
+    if case['framing'] == 'line':
+        items = [scale_text(seed, k, n) for k, n in enumerate(case['items'])]
+        rest = scale_text(seed, -1, case['rest'])
+        s = ''.join(i + '\n' for i in items) + rest
+    else:
+        p, order = case['p'], case['order']
+        items = [scale_bytes(seed, k, n) for k, n in enumerate(case['items'])]
+        rest = b''
+        if case['rest']:
+            ln, have = case['rest']
+            rest = (ln.to_bytes(p, order) + scale_bytes(seed, -1, ln))[:min(have, p + ln - 1)]
+        s = b''.join(len(i).to_bytes(p, order) + i for i in items) + rest
+    chunks, pos = [], 0
+    for n in case['sizes']:
+        chunks.append(s[pos:pos + n])
+        pos += n
+    if pos < len(s):
+        chunks.append(s[pos:])
+    return items, rest, chunks
+
+
+def scale_sizes(rng, mode, total):
+    """chunk sizes that add up to `total`"""
+    if mode == 'bst':            # large, then small, then tiny (now and then in another order), again and again
+        pat = [rng.randint(30000, 66000), rng.randint(1000, 20000), rng.randint(1, 200)]
+        if rng.random() < 0.3:
+            rng.shuffle(pat)
+        nxt = lambda i: pat[i % 3]
+    elif mode == 'random':
+        nxt = lambda i: rng.choice([0, 1, 7, 50, 999, 4096, 30000, 66000, rng.randint(1, 70000), rng.randint(1, 70000)])
+    elif mode == 'tiny':         # thousands of tiny chunks of unequal sizes
+        m = max(4, total // rng.choice([1000, 2000, 3000, 6000]))
+        nxt = lambda i: rng.randint(0 if rng.random() < 0.02 else 1, 2 * m)
+    elif mode == 'growing':
+        nxt = lambda i: 10 ** (i % 6)
+    else:                        # uniform: the last chunk is the short one
+        u = rng.choice([1000, 4096, 50000, 65536, rng.randint(256, 70000)])
+        nxt = lambda i: u
+    out, left, i = [], total, 0
+    while left > 0:
+        n = min(nxt(i), left)
+        out.append(n)
+        left -= n
+        i += 1
+    return out
+
+
+def gen_scale(rng, framing, mode, where, hi, p=None):
+    """where = 'terminated': the big line / frame is complete and stands between short items;  'trailing': it is the
+    trailing unterminated line / the incomplete trailing frame"""
+    order = rng.choice(['little', 'big']) if framing == 'lp' else None
+
+    def big():
+        if p == 2:
+            return rng.choice([32768, 65535, rng.randint(32768, 65535), rng.randint(32768, 65535)])
+        return rng.choice([65536, 65537, rng.randint(65536, 100000), rng.randint(65536, hi), rng.randint(65536, hi)])
+
+    def small():
+        return [rng.choice([0, 0, 1, 2, 7, 20]) for _ in range(rng.choice([0, 1, 2, 3]))]
+    if where == 'terminated':
+        items = small() + [big()] + small()
+        if hi > 300000 and rng.random() < 0.3:
+            items += [big()] + small()
+        if framing == 'line':
+            rest = rng.choice([0, 0, 3])
+        else:
+            rest = None
+            if rng.random() < 0.4:
+                ln = rng.choice([0, 1, 4])
+                rest = [ln, rng.randrange(p + ln)]
+    else:
+        items = small() + ([big()] + small() if rng.random() < 0.3 else [])
+        if framing == 'line':
+            rest = big()
+        else:
+            ln = big()
+            rest = [ln, rng.choice([p + ln - 1, p + ln - 1, rng.randint(p, p + ln - 1), rng.randint(0, p + ln - 1)])]
+    if framing == 'line':
+        total = sum(items) + len(items) + rest
+    else:
+        total = sum(items) + p * len(items) + (rest[1] if rest else 0)
+    c = {'kind': 'scale', 'framing': framing, 'seed': rng.randrange(2 ** 32), 'items': items, 'rest': rest,
+         'sizes': scale_sizes(rng, mode, total), 'mode': mode, 'where': where}
+    if framing == 'lp':
+        c['p'], c['order'] = p, order
+    return c
+
+
+def gen_scale_family(rng, tier):
+    out = []
+    if tier == 'thorough':
+        for _ in range(20):
+            for where in ('terminated', 'trailing'):
+                for mode in SCALE_MODES:
+                    out.append(gen_scale(rng, 'line', mode, where, 600000))
+        for _ in range(8):
+            for p in (2, 4, 8):
+                for where in ('terminated', 'trailing'):
+                    for mode in SCALE_MODES:
+                        out.append(gen_scale(rng, 'lp', mode, where, 600000, p))
+        return out
+    if tier == 'search':
+        return [gen_scale(rng, 'line', rng.choice(SCALE_MODES), rng.choice(['terminated', 'trailing']), 150000)
+                for _ in range(3)] + \
+               [gen_scale(rng, 'lp', rng.choice(SCALE_MODES), rng.choice(['terminated', 'trailing']), 150000,
+                          rng.choice([2, 4, 8])) for _ in range(3)]
+    for _ in range(2):
+        for where in ('terminated', 'trailing'):
+            for mode in ('bst', 'random', 'tiny'):
+                out.append(gen_scale(rng, 'line', mode, where, 400000))
+        for mode in ('growing', 'uniform'):
+            out.append(gen_scale(rng, 'line', mode, rng.choice(['terminated', 'trailing']), 400000))
+    for p, where, mode in [(4, 'terminated', 'bst'), (4, 'terminated', 'tiny'), (4, 'trailing', 'random'),
+                           (8, 'terminated', 'random'), (8, 'terminated', 'bst'), (8, 'trailing', 'tiny'),
+                           (2, 'terminated', 'bst'), (2, 'terminated', 'random'), (2, 'terminated', 'tiny'),
+                           (2, 'trailing', 'bst')]:
+        out.append(gen_scale(rng, 'lp', mode, where, 400000, p))
+    for _ in range(6):
+        out.append(gen_scale(rng, 'lp', rng.choice(SCALE_MODES), rng.choice(['terminated', 'trailing']), 400000,
+                             rng.choice([2, 4, 8])))
+    return out
+
+
+def gen_lp_upper(rng):
+    """prefix 1 with payloads of 128 .. 255 bytes (the upper half of what one byte encodes), content varying by
+    position; complete frames and an incomplete trailing one; a plain lp case (small enough for the Coq model)"""
+    order = rng.choice(['little', 'big'])
+    items = [rng.randbytes(rng.choice([128, 129, 200, 254, 255, rng.randint(128, 255), rng.randint(128, 255), 0, 3]))
+             for _ in range(rng.choice([1, 1, 2, 3]))]
+    s = b''.join(len(i).to_bytes(1, order) + i for i in items)
+    partial = b''
+    if rng.random() < 0.5:
+        it = rng.randbytes(rng.randint(128, 255))
+        partial = (bytes([len(it)]) + it)[:rng.choice([1, len(it), rng.randint(0, len(it))])]
+    s += partial
+    mode = rng.choice(['cut', 'cut', 'sizes', 'bytes'])
+    if mode == 'cut':
+        chunks = cut(rng, s, rng.choice([0, 1, 2, 3, 6]))
+    elif mode == 'bytes':
+        chunks = [bytes([b]) for b in s]
+    else:                       # large then small then tiny, scaled down
+        pat, chunks, pos, i = [rng.randint(60, 200), rng.randint(5, 40), rng.randint(0, 3)], [], 0, 0
+        while pos < len(s):
+            chunks.append(s[pos:pos + pat[i % 3]])
+            pos += pat[i % 3]
+            i += 1
+    return {'kind': 'lp', 'p': 1, 'order': order, 'items': [list(i) for i in items], 'partial': list(partial),
+            'chunks': [list(c) for c in chunks]}
+
+
+def dg(x):
+    """length and digest of one delivered item"""
+    if isinstance(x, str):
+        return [len(x), hashlib.sha1(x.encode('utf-8', 'surrogatepass')).hexdigest()[:16]]
+    if isinstance(x, (bytes, bytearray)):
+        return [len(x), hashlib.sha1(bytes(x)).hexdigest()[:16]]
+    return ['?', type(x).__name__]
+
+
+def run_scale(case):
+    mk_un, mk_fr, _, _ = ops_of(case)
+    items, rest, chunks = scale_stream(case)
+    r = run_timed(mk_un(), chunks)
+    fr = run_timed(mk_fr(), items)
+    return {'nsteps': len(r['steps']), 'at_sub': [dg(x) for x in r['sub']],
+            'out': [[j] + dg(x) for j, st in enumerate(r['steps']) for x in st],      # [chunk index, length, digest]
+            'final': [dg(x) for x in r['final']], 'end': r['end'],
+            'framed': [dg(x) for x in sum(fr['steps'], [])], 'framed_other': [dg(x) for x in fr['sub'] + fr['final']],
+            'frame_end': fr['end']}
+
+
+def oracle_scale(case, obs):
+    """C15 itself on a scale case, no model: the items are rebuilt from the descriptor and compared by length + digest"""
+    kind = case['framing']
+    items, rest, chunks = scale_stream(case)
+    shape = '%s, items of %s, %s, %d chunks (%s): ' % (
+        'line' if kind == 'line' else 'length_prefix(%d,%s)' % (case['p'], case['order']), case['items'],
+        ('trailing unterminated line of %d' % case['rest']) if kind == 'line' else
+        ('incomplete trailing frame %s' % (case['rest'],)), len(chunks), case['mode'])
+    if kind == 'line':
+        want = [dg(i) for i in items] + ([dg(rest)] if rest else [])
+        framed = [dg(i + '\n') for i in items]
+    else:
+        want = [dg(i) for i in items]
+        framed = [dg(len(i).to_bytes(case['p'], case['order']) + i) for i in items]
+    if obs['framed'] != framed or obs['framed_other'] or obs['frame_end'] != 'completed':
+        return {'sig': kind + ':frame', 'what': shape + 'frame() output is not %s (end=%s)' % (
+            'item+newline' if kind == 'line' else 'prefix+payload', obs['frame_end'])}
+    if kind == 'line' and rest and (not obs['final'] or obs['final'][-1] != dg(rest)):
+        return {'sig': 'line:tail', 'what': shape + 'trailing unterminated line not delivered at completion'}
+    if kind == 'lp' and obs['final']:
+        return {'sig': 'lp:partial-delivered', 'what': shape + 'incomplete trailing frame delivered'}
+    got = obs['at_sub'] + [e[1:] for e in obs['out']] + obs['final']
+    if got != want or obs['end'] != 'completed':
+        k = next((j for j, (a, b) in enumerate(zip(got, want)) if a != b), min(len(got), len(want)))
+        g, w = (got[k] if k < len(got) else None), (want[k] if k < len(want) else None)
+        how = ('same length, other content (pieces reordered or altered)' if g and w and g[0] == w[0] else
+               'got (length, digest) %s want %s' % (g, w))
+        return {'sig': kind + ':roundtrip', 'what': shape + 'unframe(rechunk(frame(items))) != items: %d items '
+                'delivered, %d expected, first difference at item #%d: %s; end=%s' % (len(got), len(want), k, how, obs['end'])}
+    return None
+
+
 def generate(rng, tier):
     n = {'quick': 500, 'thorough': 12000, 'search': 400}[tier]
     cases = []
@@ -301,6 +546,9 @@ def generate(rng, tier):
         cases += exhaustive_resub()
     if tier == 'thorough':
         cases += exhaustive_cuts(rng, 3)
+    # last, so that the cases above are what they were before this family existed
+    cases += [gen_lp_upper(rng) for _ in range({'quick': 40, 'thorough': 600, 'search': 10}[tier])]
+    cases += gen_scale_family(rng, tier)
     return cases
 
 
@@ -423,6 +671,8 @@ def run_impl(case):
     from rxsci.framing import line, length_prefix
     if case['kind'] == 'resub':
         return run_resub(case)
+    if case['kind'] == 'scale':
+        return run_scale(case)
     if case['kind'] == 'line':
         r = run_timed(line.unframe(), case['chunks'])
         fr = run_timed(line.frame(), case['items'] or [])
@@ -522,6 +772,8 @@ def oracle(case, obs):
         return None
     if 'raised' in obs:
         return {'sig': 'framing:raised', 'what': 'framing raised %s' % obs['raised']}
+    if case['kind'] == 'scale':
+        return oracle_scale(case, obs)
     return oracle_stream(case['kind'], case, obs)
 
 
@@ -539,10 +791,19 @@ def ended_inside_a_frame(case, s):
     return n not in ends
 
 
+def scale_biggest(case):
+    """length of the longest line / frame (complete or not) of a scale case"""
+    rest = case['rest'] if case['framing'] == 'line' else (case['rest'][0] if case['rest'] else 0)
+    return max(case['items'] + [rest])
+
+
 def nontrivial(case, obs):
     if case['kind'] == 'resub':
         # a later subscription that is a real stream (>= 1 item, >= 2 chunks) and runs to completion
         return any(s['fate'] == 'full' and len(s['items']) >= 1 and len(s['chunks']) >= 2 for s in case['subs'][1:])
+    if case['kind'] == 'scale':
+        # a line / frame of at least 32 KiB in at least 3 chunks
+        return len(case['sizes']) >= 3 and scale_biggest(case) >= 32768
     return case['items'] is not None and len(case['items']) >= 2 and len(case['chunks']) >= 2
 
 
@@ -550,11 +811,26 @@ def describe(cases, obs):
     d = {'line': 0, 'lp': 0, 'malformed': 0, 'empty_chunks': 0, 'max_chunks': 0, 'prefix_sizes': {}, 'with_tail_or_partial': 0,
          'resub': 0, 'resub_subscriptions': 0, 'resub_framing_x_side': {}, 'resub_sharing_x_source_x_order': {},
          'resub_fate_of_earlier_subscriptions': {}, 'resub_earlier_subscription_ended_inside_a_frame': 0,
-         'resub_two_or_more_alive_at_once': 0}
+         'resub_two_or_more_alive_at_once': 0,
+         'scale': 0, 'scale_framing_x_where_x_chunking': {}, 'scale_longest_item': 0, 'scale_shortest_big_item': 0,
+         'scale_max_chunks': 0, 'scale_big_item_is_trailing': 0, 'scale_prefix_sizes': {},
+         'lp_prefix1_payload_128_255': 0}
 
     def inc(key, k):
         d[key][k] = d[key].get(k, 0) + 1
     for c in cases:
+        if c['kind'] == 'scale':
+            d['scale'] += 1
+            inc('scale_framing_x_where_x_chunking', '%s/%s/%s' % (c['framing'], c['where'], c['mode']))
+            b = scale_biggest(c)
+            d['scale_longest_item'] = max(d['scale_longest_item'], b)
+            d['scale_shortest_big_item'] = min(d['scale_shortest_big_item'] or b, b)
+            d['scale_max_chunks'] = max(d['scale_max_chunks'], len(c['sizes']))
+            d['scale_big_item_is_trailing'] += c['where'] == 'trailing'
+            d['empty_chunks'] += sum(1 for n in c['sizes'] if n == 0)
+            if c['framing'] == 'lp':
+                inc('scale_prefix_sizes', str(c['p']))
+            continue
         if c['kind'] == 'resub':
             d['resub'] += 1
             d['resub_subscriptions'] += len(c['subs'])
@@ -577,6 +853,7 @@ def describe(cases, obs):
         d['max_chunks'] = max(d['max_chunks'], len(c['chunks']))
         if c['kind'] == 'lp':
             d['prefix_sizes'][str(c['p'])] = d['prefix_sizes'].get(str(c['p']), 0) + 1
+            d['lp_prefix1_payload_128_255'] += c['p'] == 1 and any(len(i) >= 128 for i in c['items'] or [])
         if c.get('tail') or c.get('partial'):
             d['with_tail_or_partial'] += 1
     return d
@@ -618,6 +895,8 @@ def the_sub(case):
 def coq_term(case, obs):
     if 'raised' in obs:
         return 'CRaised'
+    if case['kind'] == 'scale':
+        return 'CSkip'                        # too large for the Coq VM: the model-free oracle alone judges it
     if case['kind'] == 'resub':
         # a completed subscription is a plain stream: its chunks, what it received per chunk and at completion
         j = the_sub(case)
@@ -641,6 +920,8 @@ def coq_term(case, obs):
 
 def coq_model_expr(case):
     kind = case['kind']
+    if kind == 'scale':
+        return '(* scale case, %d elements: not evaluated in Coq *) tt' % sum(case['sizes'])
     if kind == 'resub':
         kind, chunks = case['framing'], case['subs'][the_sub(case)]['chunks']
     else:
@@ -676,11 +957,20 @@ CLAIM = {
             'source error after k chunks, k also inside a frame; rx.defer, hot Subject and synchronous rx.create '
             'sources), with a model-free oracle per subscription (exactly its own items when driven to completion, '
             'a prefix of them when cut short, nothing of another subscription), an exhaustive small scope, and the '
-            'Coq model evaluated on one completed subscription per case.',
+            'Coq model evaluated on one completed subscription per case. A SCALE family is likewise TESTED with the '
+            'model-free oracle only (not evaluated in Coq, where one 40000 byte frame takes 20 s): lines / frames of '
+            '64 KiB up to several hundred KiB (prefix 2: 32768..65535 bytes) with position-dependent content, as a '
+            'terminated line / complete frame or as the trailing unterminated line / incomplete trailing frame, '
+            'prefix 2/4/8, delivered in separator-free chunks of unequal sizes (large-small-tiny, random, thousands of '
+            'tiny chunks, growing, uniform with a short last chunk); delivered items are compared by length and '
+            'SHA-1 digest with the items rebuilt from the case descriptor. Prefix 1 with payloads of 128..255 bytes '
+            'is covered by plain cases with model comparison.',
     'note': 'Trusted: Coq kernel+VM; hand-written model of line.py/length_prefix.py (tied by correspondence only); '
             'Python str.split/join, int.to_bytes/from_bytes, io.BytesIO and RxPY synchronous delivery are '
             'modelled, not verified. Independence of the subscriptions of one operator is outside the Coq model '
-            '(tested by the re-subscription family only).',
+            '(tested by the re-subscription family only). Scale cases (frames >= 32 KiB) are outside the '
+            'correspondence stage (term CSkip): the model is compared with the code on short frames only.',
     'technique': 'Coq proof (induction over chunk list with carry-over invariant; generic incremental parser) + vm_compute correspondence '
-                 '+ model-free re-subscription testing (exhaustive small scope and random)',
+                 '+ model-free re-subscription testing (exhaustive small scope and random) + model-free scale testing '
+                 '(frames up to several hundred KiB in unequal chunks)',
 }
